@@ -82,6 +82,113 @@ def one(cases, rng, tier, d, rep, dtname, init):
     cases.append(Case(line, impl, oracle, "forward/d%d/b%d/%s/%s" % (d, nb, dtname, init), d > 1 or max(R) > 1 or nb > 0))
 
 
+def history(cases, rng, tier, hi, d):
+    """one layer object used across a history: forwards in train / eval mode, with and without autograd, interleaved with parameter updates
+    (in-place copy, load_state_dict, one SGD step with integer data).  forward must be a function of the CURRENT cores and bias: every
+    forward of the history is compared with the model on the parameter values of that moment."""
+    dt = tn.float64
+    sin = rand_modes(rng, d, 1, 3); sout = rand_modes(rng, d, 1, 3)
+    R = rand_ranks(rng, d, 2)
+    st = {}
+
+    def fresh():
+        return [int_tensor(rng, [R[k], sout[k], sin[k], R[k + 1]], dt, -2, 2) for k in range(d)], int_tensor(rng, sout, dt, -3, 3)
+    # deterministic skeleton: inference forward, update, inference forward again (no mode switch in between); then random steps
+    upd = ["copy", "load", "sgd"][hi % 3]
+    steps = [("fwd", False, True), (upd,), ("fwd", False, True), ("fwd", True, False), (rng.choice(["copy", "load", "sgd"]),), ("fwd", rng.random() < 0.5, rng.random() < 0.5),
+             (rng.choice(["copy", "load"]),), ("fwd", False, True)]
+    cur = fresh()
+    init_vals = cur
+    plan, traj = [], []
+
+    def sgd_update(cur, x, G):
+        cl = [c.clone().requires_grad_(True) for c in cur[0]]
+        bl = cur[1].clone().requires_grad_(True)
+        W = dense_of_cores(cl, True).reshape(int(np.prod(sout)), int(np.prod(sin)))
+        y = (x.reshape(-1, int(np.prod(sin))) @ W.T).reshape(list(x.shape[:1]) + sout) + bl
+        (y * G).sum().backward()
+        return [c.detach() - c.grad for c in cl], bl.detach() - bl.grad
+    for stp in steps:
+        if stp[0] == "fwd":
+            nb = rng.randint(0, 2)
+            x = int_tensor(rng, [rng.randint(1, 3) for _ in range(nb)] + sin, dt, -2, 2)
+            plan.append(("fwd", stp[1], stp[2], x))
+        elif stp[0] in ("copy", "load"):
+            cur = fresh()
+            plan.append((stp[0], cur))
+        else:
+            x, G = int_tensor(rng, [2] + sin, dt, -1, 1), int_tensor(rng, [2] + sout, dt, -1, 1)
+            plan.append(("sgd", x, G))
+            cur = sgd_update(cur, x, G)
+        traj.append(cur)
+
+    for si, stp in enumerate(plan):
+        if stp[0] != "fwd":
+            continue
+        box = {}
+
+        def impl(si=si, box=box):
+            # replay the history up to and including step si on ONE persistent layer (created at the first forward)
+            if "layer" not in st:
+                layer = torchtt.nn.LinearLayerTT(list(sin), list(sout), list(R), dtype=dt, initializer=["He", "Glo"][hi % 2])
+                with tn.no_grad():
+                    for p_, c in zip(layer.cores, init_vals[0]):
+                        p_.copy_(c)
+                    layer.bias.copy_(init_vals[1])
+                st["layer"], st["done"] = layer, 0
+            layer = st["layer"]
+            y = None
+            while st["done"] <= si:
+                op = plan[st["done"]]
+                if op[0] == "fwd":
+                    if layer.training != op[1]:          # switch the mode only when it changes (a redundant train()/eval() call is itself an event)
+                        layer.train(op[1])
+                    if op[2]:
+                        with tn.no_grad():
+                            y = layer.forward(op[3].clone())
+                    else:
+                        y = layer.forward(op[3].clone())
+                elif op[0] == "copy":
+                    with tn.no_grad():
+                        for p_, c in zip(layer.cores, op[1][0]):
+                            p_.copy_(c)
+                        layer.bias.copy_(op[1][1])
+                elif op[0] == "load":
+                    sd = layer.state_dict()
+                    keys = list(sd.keys())
+                    new = {}
+                    for kname in keys:
+                        new[kname] = op[1][1].clone() if kname == "bias" else None
+                    ck = [kname for kname in keys if kname != "bias"]
+                    for kname, c in zip(ck, op[1][0]):
+                        new[kname] = c.clone()
+                    layer.load_state_dict(new)
+                else:
+                    opt = tn.optim.SGD(layer.parameters(), lr=1.0)
+                    opt.zero_grad()
+                    (layer.forward(op[1].clone()) * op[2]).sum().backward()
+                    opt.step()
+                st["done"] += 1
+            box["y"] = y.detach().clone()
+            box["cores"] = [p_.detach().clone() for p_ in layer.cores]
+            box["bias"] = layer.bias.detach().clone()
+            return out_dense(y)
+
+        def oracle(si=si, box=box):
+            if "y" not in box:
+                return "the history raised"
+            W = dense_of_cores([c.clone() for c in box["cores"]], True).reshape(int(np.prod(sout)), int(np.prod(sin)))
+            x = plan[si][3]
+            y2 = (x.reshape(-1, int(np.prod(sin))) @ W.T).reshape(list(x.shape[:x.dim() - d]) + sout) + box["bias"]
+            e = exact_equal(box["y"], y2)
+            if e:
+                return "forward at step %d of the history differs from W.x+b of the CURRENT parameters: %s" % (si, e)
+            return None
+        # the model line carries the parameter values of that moment, tracked independently above (plain tensors, dense autograd for the SGD step)
+        line = J("forward", cores_tokens(traj[si][0], True), dense_tokens(traj[si][1]), dense_tokens(stp[3]))
+        cases.append(Case(line, impl, oracle, "history/d%d/%s/step%d" % (d, upd, si), True))
+
+
 def run(res, rng, tier, known):
     from common import run_cases
     cases = []
@@ -91,6 +198,8 @@ def run(res, rng, tier, known):
     for d in orders:
         for rep in range(reps):
             one(cases, rng, tier, d, rep, ["f64", "f32"][ci % 2], ["He", "Glo"][(ci // 2) % 2]); ci += 1
+    for hi in range(6 if tier == "quick" else 40):
+        history(cases, rng, tier, hi, [2, 3, 2][hi % 3])
     # invalid initializer must raise InvalidArguments
     def bad():
         torchtt.nn.LinearLayerTT([2], [2], [1, 1], initializer="xx")
